@@ -144,6 +144,21 @@ def run_cases(ck: Check, n_refine: int, n_storage: int):
                     expect.append(({**case, "completion_order": order}, "ok " + " ".join(str(i) for i in range(len(cands)))))
                 if len(ck.samples) < 3:
                     ck.sample({"kind": "refine", "num_processes": procs, "delays": kind, "completion_order": order, "worker_pids": len(pids)})
+            # nothing to refine (an image without droplets, an empty candidate list): every worker setting returns the empty result
+            if k < 3:
+                empty_field = ScalarField(grid, 0.0)
+                for procs in (1, 2, "auto"):
+                    for what, call in (("locate_droplets on an image without droplets", lambda: ia.locate_droplets(empty_field, refine=True, num_processes=procs)),
+                                       ("locate_droplets with every droplet below minimal_radius", lambda: ia.locate_droplets(field, refine=True, minimal_radius=50.0, num_processes=procs)),
+                                       ("refine_droplets with an empty candidate list", lambda: ia.refine_droplets(field, [], num_processes=procs))):
+                        ck.case(("refine-empty", k, str(procs), what))
+                        try:
+                            res = list(call())
+                        except Exception as e:  # noqa: BLE001
+                            res = f"{type(e).__name__}: {e}"
+                        if res != []:
+                            ck.fail(f"{what}, num_processes={procs}: {res if isinstance(res, str) else len(res)} instead of the empty result of the serial run",
+                                    {"check": "refine_par_eq_ser", "num_processes": str(procs), "candidates": 0}, {**case, "num_processes": procs, "what": what})
         # ---------------- frames of a storage
         for k in range(n_storage):
             nfr = rng.randint(3, 7)
@@ -153,13 +168,16 @@ def run_cases(ck: Check, n_refine: int, n_storage: int):
             fields = []
             for f in range(nfr):
                 kdrops = rng.choice([0, 1, 2])
-                drops = [DiffuseDroplet(np.array([4 + 8 * j + rng.uniform(-1, 1), 8 + rng.uniform(-2, 2)]), rng.uniform(2, 3), 1.0) for j in range(kdrops)]
+                drops = [DiffuseDroplet(np.array([4 + 8 * j + rng.uniform(-1, 1), 8 + rng.uniform(-2, 2)]), rng.uniform(2, 3), rng.choice([1.0, 0.7, 1.4])) for j in range(kdrops)]
                 fld = Emulsion(drops).get_phasefield(grid) if drops else ScalarField(grid, 0.0)
                 fld.data += 1e-3 * (f + 1)  # make frames distinguishable
                 fields.append(fld)
                 # (time stamps may repeat: a restarted run appended to the same storage, the final state written twice)
                 storage.append(fld, float(f // 2 if k % 2 == 1 else f) * 0.5)
             kw = dict(threshold=rng.choice([0.5, "auto"]), minimal_radius=rng.choice([0, 1.0]))
+            if k % 2 == 0:
+                # with refinement (interface widths that differ from the grid spacing): every frame is analysed on its own
+                kw["refine"] = True
             serial = EmulsionTimeCourse.from_storage(storage, num_processes=1, progress=False, **kw)
             key_serial = [(t, em_key(e)) for t, e in zip(serial.times, serial.emulsions)]
             case = {"kind": "storage", "frames": nfr, "settings": {a: repr(b) for a, b in kw.items()}}
